@@ -11,6 +11,7 @@ import (
 	"fmt"
 	"math/rand"
 	"os"
+	"os/exec"
 	"path/filepath"
 	"runtime/debug"
 	"sort"
@@ -41,6 +42,10 @@ func (g *Gen) Scale(q, t int) int {
 type Prop struct {
 	Gen func(g *Gen)
 	Run func(in V) V
+	// Isolate: run the cases in child processes so that a fatal runtime error of the
+	// implementation (out of memory on a hostile declared size, stack exhaustion) kills only
+	// the child; the case is then recorded with output (-98 x<reason>) and the run continues.
+	Isolate bool
 }
 
 var props = map[string]*Prop{}
@@ -64,6 +69,9 @@ func main() {
 	out := flag.String("out", "", "output directory")
 	corpus := flag.String("corpus", "", "corpus directory (all *.cases files run first)")
 	only := flag.String("cases", "", "run only the inputs of this file (replay)")
+	worker := flag.Bool("worker", false, "internal: child process of an isolated run")
+	wfrom := flag.Int("from", 0, "internal: first input index of the worker")
+	wuntil := flag.Int("until", -1, "internal: end input index of the worker (exclusive)")
 	flag.Parse()
 	p := props[*prop]
 	if p == nil {
@@ -111,19 +119,88 @@ func main() {
 		p.Gen(g)
 		inputs = append(inputs, g.cases...)
 	}
+	if *worker {
+		// child of an isolated run: inputs were regenerated deterministically from the same
+		// flags; append one output line per case, unbuffered, so the parent can see how far we got
+		f, err := os.OpenFile(filepath.Join(*out, "outs.txt"), os.O_APPEND|os.O_CREATE|os.O_WRONLY, 0o644)
+		if err != nil {
+			panic(err)
+		}
+		end := len(inputs)
+		if *wuntil >= 0 && *wuntil < end {
+			end = *wuntil
+		}
+		for i := *wfrom; i < end; i++ {
+			o := safeRun(p, inputs[i])
+			f.WriteString(Show(o) + "\n")
+		}
+		f.Close()
+		return
+	}
 	f, err := os.Create(filepath.Join(*out, "cases.txt"))
 	if err != nil {
 		panic(err)
 	}
 	w := bufio.NewWriterSize(f, 1<<20)
-	for _, in := range inputs {
-		o := safeRun(p, in)
-		w.WriteString(Show(Ls(in, o)))
-		w.WriteString("\n")
+	crashes := 0
+	if p.Isolate {
+		outsFn := filepath.Join(*out, "outs.txt")
+		os.Remove(outsFn)
+		countLines := func() (int, []string) {
+			b, _ := os.ReadFile(outsFn)
+			ls := strings.Split(string(b), "\n")
+			if len(ls) > 0 && ls[len(ls)-1] == "" {
+				ls = ls[:len(ls)-1]
+			}
+			return len(ls), ls
+		}
+		for {
+			n, _ := countLines()
+			if n >= len(inputs) {
+				break
+			}
+			args := append([]string{}, os.Args[1:]...)
+			args = append(args, "-worker", "-from", fmt.Sprint(n))
+			cmd := exec.Command(os.Args[0], args...)
+			cmd.Env = os.Environ()
+			outb, err := cmd.CombinedOutput()
+			if err == nil {
+				continue
+			}
+			m, _ := countLines()
+			if m >= len(inputs) {
+				break
+			}
+			// the child died while running case m
+			reason := "crash"
+			txt := string(outb)
+			if i := strings.Index(txt, "fatal error:"); i >= 0 {
+				reason = strings.SplitN(txt[i:], "\n", 2)[0]
+			} else if len(txt) > 0 {
+				reason = strings.SplitN(txt, "\n", 2)[0]
+			}
+			ff, _ := os.OpenFile(outsFn, os.O_APPEND|os.O_CREATE|os.O_WRONLY, 0o644)
+			ff.WriteString(Show(Ls(I(-98), Str(reason))) + "\n")
+			ff.Close()
+			crashes++
+			if crashes > 200 {
+				panic("too many child crashes")
+			}
+		}
+		_, ls := countLines()
+		for i, in := range inputs {
+			w.WriteString("(" + Show(in) + " " + ls[i] + ")\n")
+		}
+	} else {
+		for _, in := range inputs {
+			o := safeRun(p, in)
+			w.WriteString(Show(Ls(in, o)))
+			w.WriteString("\n")
+		}
 	}
 	w.Flush()
 	f.Close()
-	meta := map[string]interface{}{"n": len(inputs), "corpus": ncorpus, "classes": g.classes, "seed": *seed, "tier": *tier}
+	meta := map[string]interface{}{"n": len(inputs), "corpus": ncorpus, "classes": g.classes, "seed": *seed, "tier": *tier, "child_crashes": crashes}
 	mb, _ := json.MarshalIndent(meta, "", " ")
 	os.WriteFile(filepath.Join(*out, "meta.json"), mb, 0o644)
 }
